@@ -171,6 +171,7 @@ type rtProfile struct {
 	nProbes       int  // extra probes at the end (default 6..19)
 	noIcpt        bool
 	facadeHeavy   bool
+	longNames     bool // patterns near the int16 limits of the segment parser
 	twinPct       int // percentage of Handle calls using a live pattern with renamed parameters
 	braceValues   bool
 }
@@ -410,6 +411,17 @@ func genRT(pr rtProfile) func(r *rand.Rand, w *W) [][]string {
 			}
 			observe()
 		}
+		if pr.longNames && r.Intn(12) == 0 {
+			n := pick(r, []int{32760, 32766, 32767, 32768, 40000, 65530})
+			hid++
+			ops = append(ops, append([]string{"handle", "r", "/users/{id}", "h" + itoa(hid)}, append(list(), list("GET")...)...))
+			long := "/users/{" + strings.Repeat("n", n) + "}"
+			ops = append(ops, []string{"syntax", long})
+			hid++
+			ops = append(ops, append([]string{"handle", "r", long, "h" + itoa(hid)}, append(list(), list("GET")...)...))
+			ops = append(ops, []string{"serve", "GET", "/users/5"})
+			w.Count("shape-long-name")
+		}
 		nMut := 1 + r.Intn(pr.maxRoutes)
 		for i := 0; i < nMut; i++ {
 			x := r.Intn(100)
@@ -611,7 +623,7 @@ func init() {
 	suites["C04"] = Suite{Gen: genRT(rtProfile{removePct: 40, allowProbes: true, maxRoutes: 12, literalFanout: true, tracePct: 50,
 		badMethodPct: 5, facades: true}), Exec: execRT}
 	suites["C05"] = Suite{Gen: genRT(rtProfile{malformedPct: 40, removePct: 25, badMethodPct: 20, facades: true, urls: true, rawPaths: true,
-		maxRoutes: 10, literalFanout: true, syntaxOps: true}), Exec: execRT}
+		maxRoutes: 10, literalFanout: true, syntaxOps: true, longNames: true}), Exec: execRT}
 	suites["C09"] = Suite{Gen: genRT(rtProfile{removePct: 15, facades: true, use: true, maxRoutes: 12, probeEvery: true}), Exec: execRT}
 	suites["C10"] = Suite{Gen: genRT(rtProfile{malformedPct: 15, removePct: 10, urls: true, maxRoutes: 8, facades: true, braceValues: true}), Exec: execRT}
 	suites["C19"] = Suite{Gen: genRT(rtProfile{removePct: 30, facades: true, use: true, urls: true, maxRoutes: 14, probeEvery: true,
